@@ -933,11 +933,31 @@ pub fn plan_b(rng: &mut Rng, cfg: &PlanCfg) -> ScenarioB {
                         price: rng.range(50, 150),
                     },
                 },
-                75..=94 => EvB::Balance {
+                75..=82 => EvB::Balance {
                     asset: rng.usize(n_assets),
                     t,
                     total: rng.range(0, 1000),
                 },
+                // every account event kind can be the first thing a healed account link delivers
+                83..=87 => EvB::Fill {
+                    inst: rng.usize(n_inst),
+                    buy: rng.chance(1, 2),
+                    qty: 1,
+                    price: rng.range(50, 150),
+                    fee_bp: 0,
+                    t,
+                },
+                88..=91 => {
+                    let o = new_ord(rng, &mut ords, &mut filled_of, false);
+                    EvB::OrderReport {
+                        ord: o,
+                        rep: if rng.chance(1, 2) { RepB::Open { t, filled: 0 } } else { RepB::Cancelled { t } },
+                    }
+                }
+                92..=94 => {
+                    let o = new_ord(rng, &mut ords, &mut filled_of, false);
+                    EvB::CancelResp { ord: o, ok: rng.chance(1, 2), t }
+                }
                 95..=97 => EvB::Trading {
                     enabled: rng.chance(1, 2),
                 },
